@@ -66,6 +66,14 @@ def model_and_replay(run, configs, pid_key):
     run.extra.setdefault("coverage_by_action", {}).update({"Lexer." + a: cov.get(a, 0) for a in ACTIONS})
 
 
+def simulate(run, maxlen=16, num=20000, depth=120):
+    """Thorough tier: random walks of the Lexer machine over the union of the alphabets, far beyond the exhaustive bound, all invariants on."""
+    res = tlc.run("mc/MCLexer.tla", mc_cfg("sim", maxlen, "AllAlpha", "OpsBuiltin", emit=False), workers=16, simulate=num, depth=depth, timeout=1800)
+    run.tlc("M:Lexer/sim", res)
+    if res.violation:
+        run.model_violation("Lexer/sim", res)
+
+
 def histories(run, maxlen, pid_key, alphabet="A4"):
     """Registration histories: the three user operators (+++ prefix, --- postfix, hi infix) registered in each of the 6 orders,
     with every input <= maxlen of the alphabet tokenized before the first and after each registration; the expected tokens at each
